@@ -188,3 +188,22 @@ package mail
 //@ func mail.Client.CloseWithSMTPClient
 //@   requires[C13:wf] c != nil && (client != nil ==> !mw(client))
 //@   restores[C13:balanced] wheld, rheld
+
+// ---------------------------------------------------------------------------
+// C07  TLS policy and credential confidentiality
+//
+//@ pred mandatory(c *mail.Client) = c.tlspolicy == TLSMandatory && !c.useSSL
+//@ func mail.Client.tls
+//@   requires[C07:wf] c != nil && tlsinv(client) && isEnc != nil
+//@   ensures[C07:mandatory-means-tls] r0 == nil && mandatory(c) ==> client.tls
+//@   ensures[C07:count] tlsinv(client) && world.clearcmds == old(world.clearcmds)
+//@ func mail.Client.auth
+//@   requires[C07:wf] c != nil && tlsinv(client)
+//@   ensures[C07:count] client.tls ==> world.clearcmds == old(world.clearcmds)
+//@ func mail.Client.authTypeAutoDiscover (supported, isEnc) (t, err)
+//@   ensures[C07:no-cleartext-password] err == nil && !isEnc ==> t != "PLAIN" && t != "LOGIN" && t != "PLAIN-NOENC" && t != "LOGIN-NOENC"
+//@ func mail.Client.DialToSMTPClientWithContext (ctxDial) (client, err)
+//@   requires[C07:wf] c != nil
+//@   ensures[C07:nothing-in-clear] mandatory(c) ==> world.clearcmds == old(world.clearcmds)
+//@   ensures[C07:mandatory-means-tls] err == nil && mandatory(c) ==> client.tls
+//@ at mail.Client.DialToSMTPClientWithContext mail.Client.auth#1 before assert[C07:tls-before-auth] mandatory(c) ==> client.tls
